@@ -25,7 +25,7 @@ RULE = ('programs = generated C++ cases, one per (operation, request, kind assig
         'ct / run-time keepdims, take; array::transpose/add/reshape/matmul/sum, eval(tile)) over 35 array kinds (nested std::array, raw, '
         'fixed / hybrid / dynamic ndarray, the 15 shape-x-buffer ndarray_t kinds in both layouts) x constant / clipped (slack and tight '
         'bounds) / std::array / raw / static_vector / vector / tuple kinds of the shape-like and axis-like arguments; requests: fixed sample '
-        '(quick) / ~900 seeded requests (thorough); EVERY operation that can refuse has refused requests of each class in the fixed sample '
+        '(quick) / ~560 fixed + seeded requests (thorough); EVERY operation that can refuse has refused requests of each class in the fixed sample '
         '(reshape: target count a proper divisor / a multiple / coprime, -1 not dividing, two -1, zero / negative extent; broadcast_shape / '
         'broadcast_to / add / where / broadcast_arrays: mismatch in a last / leading / middle axis, rank above the target; concatenate and '
         'matmul shape: extent mismatch; pad: width list too short / too long; normalize_axis: out of range on either side) and every binary '
@@ -43,7 +43,7 @@ ANCHORS = {'Driver.C09 k9_* / k9v_* reference ops (NmVerif.KindRefs: NumPy seman
            'NmVerif.Kinds.BVec': 'utl::static_vector (utl/static_vector.hpp)', 'NmVerif.Kinds.Clipped': 'clipped_integer_t (def.hpp:55-132)'}
 MANIFEST = dict(
     text='Translation validation: every operation is instantiated under the supported combinations of argument container kinds (constant tuple, clipped, std::array, raw array, static_vector, vector, run-time tuple, fixed/hybrid 1-d ndarray, utl::array/vector, boost::array/static_vector; 35 array kinds incl. the 15 ndarray_t shape-x-buffer kinds in both layouts), in STL and NMTOOLS_DISABLE_STL builds with g++ and clang++, including constexpr evaluation, on a common request list; the normalised (has_value, shape, elements) of all of them is compared with ONE reference answer (Lean reference function written from the NumPy semantics + NumPy itself). Which combinations compile is pinned; a pinned combination that stops compiling is reported. Proof-level Lean lemmas for the container layer: a bounded vector refines a list for every operation sequence without capacity event, a clipped integer is the identity inside its range and clamps outside, and the bounded / clipped result containers chosen by the metafunctions of compute_strides / shape_transpose / broadcast_shape never overflow or clamp.',
-    note='The universally quantified part over configurations is finite and enumerated in the thorough tier (every pinned-supported signature at least once); over input values it is sampled (small extents). That the constant-index branch computes the same function (it calls the same constexpr function on to_value_v) is code structure validated by the matrix, not a theorem. Six genuine kind-dependences of the unchanged tree are listed as known findings. Not covered: maybe-wrapped argument kinds, boost small_vector, the index-map functions of C03/C04 (only their shape functions), constexpr evaluation of views.',
+    note='The universally quantified part over configurations is finite and enumerated in the thorough tier (every pinned-supported signature at least once); over input values it is sampled (small extents). That the constant-index branch computes the same function (it calls the same constexpr function on to_value_v) is code structure validated by the matrix, not a theorem. Seven genuine kind-dependences of the unchanged tree are listed as known findings (two earlier ones, the column-major clipped shape and the clipped extent 1 in broadcast_shape, were closed by fix commits 930c763 / 90a319c and are kept as regression requests). Not covered: maybe-wrapped argument kinds, boost small_vector, the index-map functions of C03/C04 (only their shape functions), constexpr evaluation of views.',
     technique='generated kind-matrix differential run against one Lean/NumPy reference + Lean 4 container refinement lemmas')
 ASSUMPTIONS = ['a kind signature that does not compile in the unchanged tree is an unsupported combination, not a violation (pinned in lib/kinds_supported_c09.json)',
                'a failure type returned for compile-time-constant arguments (meta::is_fail_v), or a compile error of a case with a constant argument, counts as the refusal `nothing`',
@@ -54,14 +54,14 @@ PARTIAL = ['maybe-wrapped argument kinds (m_shape_a ...) are not in the matrix',
            'views / evaluations: 26 operations; the second array operand of a binary operation ranges over 8 of the 35 array kinds (4 for '
            'concatenate, 4 x 4 for the two value operands of where); the kind universe of the 18 operations added in round 4 is two '
            'diagonals + shape-class x second-argument pairs (~100-170 signatures per operation and build), not the full product',
-           'refused requests exist only for operations that CAN refuse: transpose / swapaxes / expand_dims / repeat / take / reductions / '
-           'concatenate view / matmul view assert or run out of bounds on invalid arguments in every kind alike (C15 findings), so the '
-           'matrix feeds them valid requests only',
+           'refused requests exist only for operations that CAN refuse: transpose / take / reductions do not validate their axes / '
+           'indices in any kind (C15 findings), so the matrix feeds them valid requests only; expand_dims, repeat, concatenate and '
+           'matmul refuse since the fix: commits fb06f17 / 812bb12 / 972adee / 7d7a8ac and have refused requests in the fixed sample',
            'constexpr evaluation is compared at index level only',
            'index maps (tile / repeat / roll / pad / slice index functions) are covered through the views only, not kind by kind',
            'reference-refusal theorems cover reshape (count mismatch, two unknowns, zero / negative extent), broadcast_shape / broadcast_to '
-           '(mismatching axis, rank), matmul (contraction); the refusal of -1 with a non-dividing count, of concatenate and of pad are '
-           'checked by the NumPy oracle only']
+           '(mismatching axis, rank), matmul (contraction), normalize_axis / repeat / expand_dims (axis out of range, count list length); the refusal of -1 with '
+           'a non-dividing count, of concatenate and of a duplicate expand_dims axis are checked by the NumPy oracle only']
 MAX_JOBS = min(6, int(os.environ.get('VERIF_JOBS', '6')))
 CASES_PER_TU = 220
 VIEW_WEIGHT = 3
@@ -333,7 +333,9 @@ REFS['shape_repeat'] = Ref(
     lambda v: _np_shape(lambda: np.repeat(np.empty(v[0], dtype=np.int8), v[1], v[2]).shape),
     lambda v: 'k9_repeat shape=%s repeats=%d axis=%s' % (fmt(v[0]), v[1], 'None' if v[2] is None else str(v[2])),
     lambda rng: (lambda s: [s, rng.randint(1, 3), _gen_axis(rng, len(s), neg=False)])(rshape(rng, 1, 3, emax=4)),
-    fixed=[[[2, 3], 2, 1], [[2, 3], 2, None], [[2, 3, 2], 3, 0]])
+    fixed=[[[2, 3], 2, 1], [[2, 3], 2, None], [[2, 3, 2], 3, 0],
+           # refused (run-time axis): axis out of range
+           [[2, 3], 2, 2], [[2, 3, 2], 2, 3]])
 
 
 def _gen_repeat_l(rng):
@@ -347,7 +349,9 @@ REFS['shape_repeat_l'] = Ref(
     lambda v: _np_shape(lambda: np.repeat(np.empty(v[0], dtype=np.int8), v[1], v[2]).shape),
     lambda v: 'k9_repeat shape=%s repeats=%s rlist=1 axis=%s' % (fmt(v[0]), fmt(v[1]), 'None' if v[2] is None else str(v[2])),
     _gen_repeat_l,
-    fixed=[[[2, 3], [1, 2, 3], 1], [[2, 2], [2, 1], 0]])
+    fixed=[[[2, 3], [1, 2, 3], 1], [[2, 2], [2, 1], 0],
+           # refused (run-time axis): one count per element of the axis is required; axis out of range
+           [[2, 3], [1, 2], 1], [[2, 3], [1, 2, 3, 1], 1], [[2, 3], [1, 2, 3], 2]])
 
 
 def _rd_oracle(v):
@@ -638,7 +642,7 @@ REFS['v_broadcast_arrays'] = Ref(_barrays_oracle,
 REFS['v_repeat'] = Ref(lambda v: _np_arr(lambda: np.repeat(_arr(v[0], 0), v[1], v[2])),
                        lambda v: 'k9v_repeat x=%s repeats=%d axis=%s' % (fmt(v[0]), v[1], 'None' if v[2] is None else str(v[2])),
                        lambda rng: (lambda s: [s, rng.randint(1, 3), _gen_axis(rng, len(s), neg=False)])(_vshape(rng)),
-                       fixed=[[[2, 3], 2, 1], [[2, 3], 2, None], [[2, 2, 2], 3, 0]])
+                       fixed=[[[2, 3], 2, 1], [[2, 3], 2, None], [[2, 2, 2], 3, 0], [[2, 3], 2, 2], [[2, 3], 2, -3]])
 
 
 def _vpad_oracle(v):
@@ -690,7 +694,9 @@ def _gen_vexpand(rng):
 
 REFS['v_expand_dims'] = Ref(lambda v: _np_arr(lambda: np.expand_dims(_arr(v[0], 0), tuple(v[1]))),
                             lambda v: 'k9v_expand_dims x=%s axis=%s' % (fmt(v[0]), fmt(v[1])),
-                            _gen_vexpand, fixed=[[[2, 3], [1]], [[2, 3], [0, 2]], [[3], [1]]])
+                            _gen_vexpand, fixed=[[[2, 3], [1]], [[2, 3], [0, 2]], [[3], [1]],
+                                                 # refused: axis outside [-n, n) of the result rank n, axis listed twice
+                                                 [[2, 3], [3]], [[2, 3], [-4]], [[2, 3], [0, 0]]])
 REFS['v_squeeze'] = Ref(lambda v: _np_arr(lambda: np.squeeze(_arr(v[0], 0))),
                         lambda v: 'k9v_squeeze x=%s' % fmt(v[0]),
                         lambda rng: [[rng.choice([1, 1, 2, 3]) for _ in range(rng.randint(1, 3))] + [2]],
@@ -708,7 +714,9 @@ def _gen_vcat(rng):
 
 REFS['v_concatenate'] = Ref(lambda v: _np_arr(lambda: np.concatenate((_arr(v[0], 0), _arr(v[1], 1)), axis=v[2])),
                             lambda v: 'k9v_concatenate x=%s y=%s axis=%s' % (fmt(v[0]), fmt(v[1]), 'None' if v[2] is None else str(v[2])),
-                            _gen_vcat, fixed=[[[2, 3], [1, 3], 0], [[2, 3], [2], None], [[2, 3], [2, 1], 1]])
+                            _gen_vcat, fixed=[[[2, 3], [1, 3], 0], [[2, 3], [2], None], [[2, 3], [2, 1], 1],
+                                              # refused: an extent differs off the joining axis, axis out of range
+                                              [[2, 3], [2, 2], 0], [[2, 3], [2, 3], 2]])
 
 
 def _gen_vwhere(rng):
@@ -744,7 +752,9 @@ def _gen_vmatmul(rng):
 
 _matmul = Ref(lambda v: _np_arr(lambda: np.matmul(_arr(v[0], 0), _arr(v[1], 1))),
               lambda v: 'k9v_matmul x=%s y=%s' % (fmt(v[0]), fmt(v[1])),
-              _gen_vmatmul, fixed=[[[2, 3], [3, 2]], [[2, 2, 3], [3, 1]], [[1, 2], [2, 2, 2]]])
+              _gen_vmatmul, fixed=[[[2, 3], [3, 2]], [[2, 2, 3], [3, 1]], [[1, 2], [2, 2, 2]],
+                                   # refused: contraction extents differ, batch extents neither equal nor 1
+                                   [[2, 3], [2, 2]], [[2, 2, 3], [3, 3, 1]]])
 REFS['v_matmul'] = _matmul
 REFS['e_matmul'] = Ref(_matmul.oracle, _matmul.mreq, _matmul.gen, fixed=_matmul.fixed)
 
@@ -936,14 +946,30 @@ def kf_take_clipped_indices(c):
     return any(e > bound for e in s)
 
 
+def kf_repeat_constant_axis_invalid(c):
+    """repeat with a compile-time-constant axis and a refused request (axis out of range / wrong number of counts): only
+    a run-time axis is validated"""
+    r = parse_req(c.req)
+    if r['op'] not in ('shape_repeat', 'shape_repeat_l', 'v_repeat') or r['argkind']['axis'] != 'ct':
+        return False
+    shape = r['args']['shape' if 'shape' in r['args'] else 'x']
+    ax = r['args']['axis']
+    if ax is None:
+        return False
+    if not (-len(shape) <= ax < len(shape)):
+        return True
+    reps = r['args']['repeats']
+    return isinstance(reps, list) and len(reps) != shape[ax]
+
+
 KNOWN_PREDICATES = {
+    'repeat_constant_axis_invalid': kf_repeat_constant_axis_invalid,
     'take_clipped_indices': kf_take_clipped_indices,
     'repeat_clipped_repeats': kf_repeat_clipped_repeats,
     'eval_tile_fixed_buffer': kf_eval_tile_fixed_buffer,
     'remove_dims_runtime_keepdims': kf_remove_dims_runtime_keepdims,
     'normalize_axis_clipped_negative': kf_normalize_axis_clipped_negative,
     'reshape_clipped_bounds': kf_reshape_clipped_bounds,
-    'broadcast_clipped_one_with_slack': kf_broadcast_clipped_one_with_slack,
 }
 
 
@@ -974,7 +1000,7 @@ def requests(tier, seed):
             view = G.OPS[op].level == 'view'
             for v in ref.fixed:
                 out.append((op, v))
-            for _ in range(6 if view else 22):
+            for _ in range(3 if view else 10):
                 out.append((op, ref.gen(rng)))
     seen = set(); res = []
     for op, v in out:
@@ -1043,7 +1069,7 @@ def assignments(op, vals, build, rng, tier, pins, todo_sigs):
         else:
             chosen += G.view_pairs(op, per)
         todo_sigs[('diag-done', build, op, refusal)] = True
-    nmix = (3 if o.level == 'view' else 6) if tier == 'quick' else (5 if o.level == 'view' else 10)
+    nmix = (3 if o.level == 'view' else 6) if tier == 'quick' else (3 if o.level == 'view' else 10)
     if o.level == 'index':
         # the type-level branches key on the CLASS of each argument (constant / clipped / fixed / bounded / dynamic):
         # every pair of classes for the first two list arguments, the remaining arguments cycling
